@@ -13,10 +13,10 @@ Record trust := {
 (* Signature types that have a public key. *)
 Definition asymmetric (ty : N) : bool := (ty =? SIG_RSA) || (ty =? SIG_ECDSA) || (ty =? SIG_ED25519).
 
-(* The packet's signature verifies under the public key [k]. *)
-Definition verifies (w : world) (k : bytes) (p : pkt) : Prop :=
-  k <> [] /\ exists si, p_sig p = Some si /\ asymmetric (s_type si) = true /\
-                        w_verify w (s_type si) k p = Ok true.
+(* The packet's signature verifies under the public key [k] (which must not be empty). *)
+Definition verifies_sig (w : world) (k : bytes) (p : pkt) : Prop :=
+  exists si, p_sig p = Some si /\ asymmetric (s_type si) = true /\ w_verify w (s_type si) k p = Ok true.
+Definition verifies (w : world) (k : bytes) (p : pkt) : Prop := k <> [] /\ verifies_sig w k p.
 
 (* The packet names [cn] as its key. *)
 Definition names_key (p : pkt) (cn : vname) : Prop :=
@@ -53,7 +53,7 @@ Definition anchor_matches (sc : schema) (a : pkt) : Prop :=
              forall r, In r (sc_roots sc) -> In r ms.
 (* ... and is properly self-signed: its signature verifies under the key it carries. *)
 Definition self_signed (w : world) (a : pkt) : Prop :=
-  exists k, p_content a = Some k /\ verifies w k a.
+  exists k, p_content a = Some k /\ verifies_sig w k a.
 
 (* boolean forms, used by the harness oracle (equivalences in Proofs/ValidatorProofs.v) *)
 Definition anchor_matchesb (sc : schema) (a : pkt) : bool :=
@@ -65,15 +65,16 @@ Definition anchor_matchesb (sc : schema) (a : pkt) : bool :=
 (* ------------------------------------------------------------------------------------------------
    Executable reference decision of [Chain] (used by the harness as the direct oracle; proved
    equivalent to [Chain] in Proofs/ValidatorProofs.v).  None = fuel exhausted (certificate loop). *)
-Definition verifiesb (w : world) (k : bytes) (p : pkt) : bool :=
-  match k, p_sig p with
-  | _ :: _, Some si =>
-      asymmetric (s_type si) && match w_verify w (s_type si) k p with Ok true => true | _ => false end
-  | _, _ => false
+Definition verifies_sigb (w : world) (k : bytes) (p : pkt) : bool :=
+  match p_sig p with
+  | Some si => asymmetric (s_type si) && match w_verify w (s_type si) k p with Ok true => true | _ => false end
+  | None => false
   end.
+Definition verifiesb (w : world) (k : bytes) (p : pkt) : bool :=
+  match k with [] => false | _ => verifies_sigb w k p end.
 
 Definition self_signedb (w : world) (a : pkt) : bool :=
-  match p_content a with Some k => verifiesb w k a | None => false end.
+  match p_content a with Some k => verifies_sigb w k a | None => false end.
 
 Fixpoint chainb (w : world) (t : trust) (fuel : nat) (p : pkt) : option bool :=
   match key_locator p with
